@@ -644,6 +644,115 @@ func c18R3(p *core.Prog, r *core.Report) {
 		}
 	}
 	r.Check(ok, rule, fname, "backup precedes overwrite", p.Pos(backup.Pos()), "from the edge on which a backup is wanted, the overwriting copy is only reachable through the backup copy (error returns aside)")
+	c18R10(p, r, fn, mainCopy, backup)
+	c18R11(p, r, fn, mainCopy, tgtP)
+}
+
+// c18R10: "available under that name before the tag is overwritten" — a backup that did not succeed
+// must stop the overwrite. Known finding D21 on the unchanged tree: the failure is logged and the
+// overwrite goes ahead (upstream: "possible registry corruption with existing image, only warn and
+// continue/overwrite").
+func c18R10(p *core.Prog, r *core.Report, fn *ssa.Function, mainCopy, backup *ssa.Call) {
+	const rule = "C18.R10"
+	r.Rule(rule, "a failed backup stops the overwrite: from the failure edge of the backup copy the overwriting copy is not reachable (the previous image has to be available under the backup name before the tag moves)", 1)
+	fname := p.FuncName(fn)
+	edges := errEdgesOf(fn, backup)
+	if len(edges) == 0 {
+		// the result of the backup copy is not looked at before the overwrite
+		seen := core.Reach{}.FromInstr(backup)
+		r.Check(!seen[mainCopy], rule, fname, "overwrite after a failed backup", p.Pos(backup.Pos()), "the error of the backup copy is never tested: the overwriting copy runs whether or not the previous image was saved")
+		return
+	}
+	ok := true
+	for _, e := range edges {
+		if (core.Reach{}).FromEdge(e[0], e[1])[mainCopy] {
+			ok = false
+		}
+	}
+	r.Check(ok, rule, fname, "overwrite after a failed backup", p.Pos(backup.Pos()), "from the failure edge of the backup copy the overwriting copy is reachable: the run overwrites the tag, reports success, and the image the tag pointed to is not available under the backup name")
+}
+
+// c18R11: whether there is something to back up is what the target answered. "The lookup failed"
+// (403, 5xx, a timeout) is not "the tag does not exist": an existence flag that is just `err == nil`
+// skips the backup of a tag that exists. Known finding D22 on the unchanged tree.
+func c18R11(p *core.Prog, r *core.Report, fn *ssa.Function, mainCopy *ssa.Call, tgtP *ssa.Parameter) {
+	const rule = "C18.R11"
+	r.Rule(rule, "absent is what the target said: from the failure edge of the lookup of the target reference (ManifestHead / ManifestGet on the target parameter) the overwriting copy is reachable only past a classification of that error (errors.Is / errors.As on it)", 1)
+	fname := p.FuncName(fn)
+	isTgt := func(v ssa.Value) bool {
+		return core.AllOrigins(core.Origins(v, core.SliceOpts{}), func(o core.Origin) bool { return o.Kind == core.OParam && o.Param == tgtP })
+	}
+	var heads []*ssa.Call
+	core.Calls(fn, func(c ssa.CallInstruction) {
+		cal := core.Callee(c)
+		if cal == nil || !(core.IsModMethod(cal, ".", "RegClient", "ManifestHead") || core.IsModMethod(cal, ".", "RegClient", "ManifestGet")) {
+			return
+		}
+		if call, ok := c.(*ssa.Call); ok && isTgt(core.CallArg(c, 2)) {
+			heads = append(heads, call)
+		}
+	})
+	if len(heads) == 0 {
+		r.Held(rule, fname, "overwrite after a failed target lookup", p.Pos(fn.Pos()), "the function does not look the target up itself (no ManifestHead/ManifestGet on the target parameter): nothing to decide in this form")
+		return
+	}
+	for _, head := range heads {
+		fromHead := func(v ssa.Value) bool {
+			for _, oc := range originCalls(v) {
+				if oc == head {
+					return true
+				}
+			}
+			return false
+		}
+		// an If whose condition is built from errors.Is / errors.As on the lookup's error
+		var classifies func(v ssa.Value, depth int) bool
+		classifies = func(v ssa.Value, depth int) bool {
+			if v == nil || depth > 6 {
+				return false
+			}
+			switch x := v.(type) {
+			case *ssa.Call:
+				if f := core.Callee(x); f != nil && (core.IsFunc(f, "errors", "Is") || core.IsFunc(f, "errors", "As")) {
+					return len(x.Call.Args) > 0 && fromHead(x.Call.Args[0])
+				}
+				// a predicate helper of the module that is handed the error
+				if g := x.Call.StaticCallee(); g != nil && p.InModule(g) {
+					for _, a := range x.Call.Args {
+						if isErr(a.Type()) && fromHead(a) {
+							return true
+						}
+					}
+				}
+			case *ssa.BinOp:
+				return classifies(x.X, depth+1) || classifies(x.Y, depth+1)
+			case *ssa.UnOp:
+				return classifies(x.X, depth+1)
+			case *ssa.Phi:
+				for _, e := range x.Edges {
+					if classifies(e, depth+1) {
+						return true
+					}
+				}
+			}
+			return false
+		}
+		stop := func(in ssa.Instruction) bool {
+			ifi, ok := in.(*ssa.If)
+			return ok && classifies(ifi.Cond, 0)
+		}
+		edges := errEdgesOf(fn, head)
+		ok := true
+		if len(edges) == 0 {
+			ok = !core.Reach{Stop: stop}.FromInstr(head)[mainCopy]
+		}
+		for _, e := range edges {
+			if (core.Reach{Stop: stop}).FromEdge(e[0], e[1])[mainCopy] {
+				ok = false
+			}
+		}
+		r.Check(ok, rule, fname, "overwrite after a failed target lookup", p.Pos(head.Pos()), "from the failure edge of the target lookup the overwriting copy is reachable without a look at what kind of failure it was: a 403, a 5xx or a timeout on the lookup is taken for an absent tag, the backup is skipped and the tag overwritten")
+	}
 }
 
 // ---------------------------------------------------------------------------------------------
